@@ -184,6 +184,14 @@ def DateTime.fromTotalNanoseconds (total : Int) (z : TimeZone) : Except TzError 
   | .ok (s, ns) => DateTime.fromTimespec s ns z
   | .error e => .error e
 
+-- src/datetime/mod.rs `impl PartialEq for DateTime`, `impl PartialOrd for DateTime`: (unix_time, nanoseconds) only
+def DateTime.beq (a b : DateTime) : Bool := a.unixTime == b.unixTime && a.nanoseconds == b.nanoseconds
+
+/-- `partial_cmp` as -1 / 0 / 1 (lexicographic on (unix_time, nanoseconds)) -/
+def DateTime.cmp (a b : DateTime) : Int :=
+  if a.unixTime < b.unixTime then -1 else if a.unixTime > b.unixTime then 1
+  else if a.nanoseconds < b.nanoseconds then -1 else if a.nanoseconds > b.nanoseconds then 1 else 0
+
 -- src/datetime/mod.rs `DateTime::project`, `UtcDateTime::project`
 def DateTime.project (d : DateTime) (z : TimeZone) : Except TzError DateTime :=
   DateTime.fromTimespec d.unixTime d.nanoseconds z
